@@ -21,6 +21,16 @@ type Fault struct {
 	After int
 	n     int
 	Fired bool
+	// Scalars: the kind-appropriate scalar accessors (AsBool … AsLink, also of map keys) count and fail too —
+	// a node whose value lives somewhere else (an ADL, a lazily loaded node) can fail there as well
+	Scalars bool
+}
+
+func (f *Fault) tickScalar() error {
+	if f == nil || !f.Scalars {
+		return nil
+	}
+	return f.tick()
 }
 
 func (f *Fault) tick() error {
@@ -217,12 +227,18 @@ func (n Node) AsBool() (bool, error) {
 	if n.v.K != model.KBool {
 		return false, n.wrongKind("AsBool", datamodel.KindSet_JustBool)
 	}
+	if err := n.f.tickScalar(); err != nil {
+		return false, err
+	}
 	return n.v.B, nil
 }
 
 func (n Node) AsInt() (int64, error) {
 	switch n.v.K {
 	case model.KInt:
+		if err := n.f.tickScalar(); err != nil {
+			return 0, err
+		}
 		return n.v.I, nil
 	case model.KUint:
 		return 0, fmt.Errorf("unsigned integer out of range of int64 type")
@@ -236,12 +252,18 @@ func (n Node) AsFloat() (float64, error) {
 	if n.v.K != model.KFloat {
 		return 0, n.wrongKind("AsFloat", datamodel.KindSet_JustFloat)
 	}
+	if err := n.f.tickScalar(); err != nil {
+		return 0, err
+	}
 	return n.v.F, nil
 }
 
 func (n Node) AsString() (string, error) {
 	if n.v.K != model.KString {
 		return "", n.wrongKind("AsString", datamodel.KindSet_JustString)
+	}
+	if err := n.f.tickScalar(); err != nil {
+		return "", err
 	}
 	return n.v.S, nil
 }
@@ -250,12 +272,18 @@ func (n Node) AsBytes() ([]byte, error) {
 	if n.v.K != model.KBytes {
 		return nil, n.wrongKind("AsBytes", datamodel.KindSet_JustBytes)
 	}
+	if err := n.f.tickScalar(); err != nil {
+		return nil, err
+	}
 	return []byte(n.v.S), nil
 }
 
 func (n Node) AsLink() (datamodel.Link, error) {
 	if n.v.K != model.KLink {
 		return nil, n.wrongKind("AsLink", datamodel.KindSet_JustLink)
+	}
+	if err := n.f.tickScalar(); err != nil {
+		return nil, err
 	}
 	return LinkOf(n.v.S), nil
 }
